@@ -163,6 +163,9 @@ package plot
 // sequence-number discipline labeledSeries.add requires of its input (each number once, timestamps in
 // sequence order) is the property's own domain restriction: callee preconditions are assumed here
 // (pragma obligations contract), the frame and the dispatch are proved.
+// PLOTINV: every attack of the plot has a series object, and every time series filed under any attack is
+// a marked one (so TSINV speaks about it).
+//@ spec func PLOTINV(p *Plot) bool = (forall a string :: has(p.series, a) ==> p.series[a] != nil) && (forall a, l string :: has(p.series, a) && has(p.series[a].series, l) ==> p.series[a].series[l] != nil && ists(p.series[a].series[l]))
 //@ func newLabeledSeries
 //@   property C17
 //@   ensures result != nil && fresh(result) && result.buf != nil && fresh(result.buf) && result.series != nil && fresh(result.series) && result.label == label && result.seq == 0 && len(result.buf) == 0 && len(result.series) == 0
@@ -172,9 +175,10 @@ package plot
 //@   pragma closedheap yes
 //@   returns (err)
 //@   requires [non-nil] p != nil && r != nil
-//@   requires [series-invariant] TSINV()
+//@   requires [series-invariant] TSINV() && PLOTINV(p)
+//@   ensures [plot-invariant] PLOTINV(p)
 //@   ensures [series-invariant] TSINV() && (forall l string :: has(p.series[r.Attack].series, l) ==> p.series[r.Attack].series[l] != nil && ists(p.series[r.Attack].series[l])) && (forall t *plot.timeSeries :: old(ists(t)) ==> ists(t))
-//@   modifies p.series[*], p.series[r.Attack].buf[*], p.series[r.Attack].series[*], any(plot.labeledSeries), any(plot.timeSeries), any(tsz.Series),
+//@   modifies p.series[*], p.series[r.Attack].buf[*], p.series[r.Attack].series[*], p.series[r.Attack].seq, p.series[r.Attack].began, any(plot.timeSeries), any(tsz.Series),
 //@            ghost(pushed, all), ghost(lastT, all), ghost(lastV, all), ghost(ists, all), ghost(towner, all)
 //@   ensures [dispatched-by-attack-name] has(p.series, r.Attack) && p.series[r.Attack] != nil
 //@   ensures [other-attacks-keep-their-series] forall a string :: a != r.Attack ==> has(p.series, a) == old(has(p.series, a)) && p.series[a] == old(p.series[a])
@@ -190,20 +194,71 @@ package plot
 //@ func Label
 //@   property C17
 //@   ensures result != nil
+// Options only set the field they are named after (type contract of Opt, proved for the three option
+// closures of this package; an option written elsewhere cannot reach the unexported fields).
+//@ stub plot.Opt(p *plot.Plot)
+//@   requires [option-non-nil] self != nil
+//@   requires [plot-non-nil] p != nil
+//@   modifies p.title, p.threshold, p.label
+//@ func Title$1
+//@   property C17
+//@   requires [plot-non-nil] p != nil
+//@   modifies p.title
+//@   ensures p.title == title
+//@ func Downsample$1
+//@   property C17
+//@   requires [plot-non-nil] p != nil
+//@   modifies p.threshold
+//@   ensures p.threshold == threshold
+//@ func Label$1
+//@   property C17
+//@   requires [plot-non-nil] p != nil
+//@   modifies p.label
+//@   ensures p.label == l
+// New: an empty plot (no attack has a series yet), with a labeler.
 //@ func New
 //@   property C17
-//@   trusted
-//@   ensures result != nil && fresh(result)
+//@   requires [options-non-nil] forall k int :: 0 <= k && k < len(opts) ==> opts[k] != nil
+//@   modifies nothing
+//@   ensures [empty-plot] result != nil && fresh(result) && result.series != nil && len(result.series) == 0 && (forall a string :: !has(result.series, a)) && result.label != nil
+//@   loop 1
+//@     invariant -1 <= rangeindex && rangeindex < len(opts) && p != nil && fresh(p) && p.series != nil && fresh(p.series) && len(p.series) == 0 && (forall a string :: !has(p.series, a))
+//@     decreases len(opts) - rangeindex
+// Close finishes the buffer of every series (needed before reading them) and touches nothing else.
 //@ func (*Plot).Close
 //@   property C17
-//@   trusted
+//@   pragma closedheap yes
 //@   requires [non-nil] p != nil
+//@   requires [plot-invariant] TSINV() && PLOTINV(p)
 //@   modifies any(tsz.Series)
+//@   ensures [plot-invariant] TSINV() && PLOTINV(p)
+//@   loop 1
+//@     invariant p == old(p) && TSINV() && PLOTINV(p)
+//@   loop 2
+//@     invariant p == old(p) && TSINV() && PLOTINV(p)
+// WriteTo: the rows come from p.data() - called exactly once, on this plot, with its preconditions
+// established by the caller - and its error is returned as it is; templating, JSON and the assets are
+// not modelled (arbitrary effects).
 //@ func (*Plot).WriteTo
 //@   property C17
-//@   trusted
+//@   pragma closedheap yes
+//@   pragma unknowncalls havoc
+//@   pragma frame off
+//@   pragma fits len(dp) * len(dp[0]) * 12
+//@   pragma fits len(dp) * len(dp[0])
 //@   returns (n, err)
 //@   requires [non-nil] p != nil
+//@   requires [plot-invariant] TSINV() && PLOTINV(p)
+//@   ghost asked int = 0
+//@   ghost derr ref = 0
+//@   before call data: assert [rows-of-this-plot] arg0 == p && asked == 0
+//@   at call data: ghost asked = asked + 1 ; ghost derr = ref(result2)
+//@   at call Append: assume [palettes-are-package-constants] len(failures) == 7 && len(successes) == 7
+//@   before call Execute: assert [rows-were-computed-without-error] asked == 1 && derr == 0
+//@   ensures [data-error-is-returned] derr != 0 ==> ref(err) == derr && n == 0
+//@   loop 1
+//@     invariant asked == 1 && derr == 0 && -1 <= rangeindex && rangeindex < 3
+//@     decreases 3 - rangeindex
 
 // ErrorLabeler: a result is in the ERROR series exactly when it has a non-empty error.
 //@ func ErrorLabeler
